@@ -29,6 +29,7 @@ def term_source(pid: str, tier: str):
     out += [("SKEL", t) for t in F.skel_terms(tier)]
     out += [("NARY", t) for t in F.nary_terms(tier)]
     out += [("PARAM", t) for t in F.param_terms(tier)]
+    out += [("NEAR", t) for t in F.near_terms(tier)]
     seen = set()
     res = []
     for fam, t in out:
